@@ -132,3 +132,20 @@ package types
 //@   panics_if *gp + amount > 18446744073709551615
 //@   modifies *gp
 //@   ensures *gp == old(*gp) + amount && result == gp
+
+// C04: a transaction is acceptable at time t only inside its expiry window: t <= expiration <= t + MaxTxLifeTime
+// box payloads are JSON-decoded into freshly allocated objects: nothing that exists is written (assumed)
+//@ func checkBoxTx   trusted
+//@   modifies nothing
+
+// the transaction id: keccak over the RLP of the transaction (T5); a transaction object is treated as immutable
+//@ func (*Transaction).Hash   pure trusted
+//@   opt heap-independent
+
+//@ func (*Transaction).VerifyTxBody
+//@   props C04
+//@   modifies nothing
+//@   opt assume-frame
+//@   requires tx != nil && tx.data.GasPrice != nil && tx.data.Amount != nil && params.MinGasPrice != nil
+//@   ensures err == nil ==> timeStamp <= old(tx.data.Expiration) && old(tx.data.Expiration) - timeStamp <= 1800
+//@   ensures err == nil ==> old(tx.data.ChainID) == chainID && old(val(tx.data.Amount)) >= 0 && old(len(tx.data.RecipientName)) <= 100 && old(len(tx.data.Message)) <= 1024
